@@ -105,6 +105,17 @@ pub fn spaces(tier: Tier) -> Vec<Space<'static>> {
         m.insert("zz".to_string(), RVal::Arr(vec![RVal::Str(s.clone()), RVal::Str(k.clone())]));
         check_value(&RVal::Obj(m), acc)
     }));
+    {
+        // documents that are just one string, including strings that spell JSON documents and every
+        // rendering of a small document as a string (a string is a string, whatever it spells)
+        let mut whole: Vec<String> = univ::sstr().clone();
+        for v in univ::d2().iter() {
+            whole.push(refmodel::text::print(v));
+        }
+        whole.push(" [1]".into());
+        whole.push("[1] ".into());
+        sp.push(Space::new("whole-document strings (SSTR and the text of every D2 document)", whole.len() as u64, move |i, acc| check_value(&RVal::Str(whole[i as usize].clone()), acc)));
+    }
     let max_chain = if tier.thorough() { 64 } else { 16 };
     sp.push(Space::new("chains", max_chain * 3 * 2, move |i, acc| {
         let depth = (i / 6) as usize + 1;
